@@ -86,6 +86,10 @@ var legacyRunes = []rune{0xe9, 0xdf, 0x3b1, 0x416, 0x5d0, 0x20ac, 0x2500, 0x2502
 	0x252c, 0x2534, 0x253c, 0x2192, 0x2190, 0x2191, 0x2193, 0x2588, 0x25c6, 0xb0, 0xb1, 0xa3, 0xb7, 0x3c0, 0x2260, 0x2264, 0x2265,
 	0x23ba, 0x23bd, 0x4e16, 0x754c, 0xac00, 0x3042, 0xff21, 0x1f600, 0x2603, 0x401, 0x141}
 
+// fallbackRunes: runes of tcell's stock RuneFallbacks table (arrows, blocks, line drawing, symbols)
+var fallbackRunes = []rune{0x2192, 0x2190, 0x2191, 0x2193, 0x2588, 0x25c6, 0x2592, 0xb0, 0xb1, 0xb7, 0x2264, 0x2265, 0x3c0,
+	0x2260, 0xa3, 0x2500, 0x2502, 0x250c, 0x253c, 0x23ba, 0x23bd, 0x2022, 0x2591}
+
 var pickLegacy bool
 
 func pickRune(rng *rand.Rand) rune {
@@ -149,8 +153,19 @@ func planScreen(rng *rand.Rand, nops int, w, h int, mix string, rich bool, hasCa
 			switch rng.Intn(3) {
 			case 0:
 				// a changed fallback shows at the next draw of a cell: force one for every cell
-				add(sop{Op: "Fallback", R: rr, B: rng.Intn(3) != 0, S: []string{"-", "+", "#", "o"}[rng.Intn(4)]})
+				// and the rune is put on the screen and asked about, so that the change is observed
+				if rng.Intn(2) == 0 {
+					rr = fallbackRunes[rng.Intn(len(fallbackRunes))]
+				}
+				subst := []string{"-", "+", "#", "o"}[rng.Intn(4)]
+				if runes.ClassScreen(rr) == 2 { // documented: the string is as wide as the rune
+					subst = []string{"[]", "<>", "##", "WW"}[rng.Intn(4)]
+				}
+				add(sop{Op: "Fallback", R: rr, B: rng.Intn(2) != 0, S: subst})
+				add(sop{Op: "SetContent", X: rng.Intn(cw), Y: rng.Intn(ch), R: rr, St: tcx.RandStyle(rng, rich, true)})
 				add(sop{Op: "Sync"})
+				add(sop{Op: "CanDisplay", R: rr, B: true})
+				add(sop{Op: "CanDisplay", R: rr, B: false})
 			default:
 				add(sop{Op: "CanDisplay", R: rr, B: rng.Intn(2) == 0})
 			}
